@@ -503,7 +503,7 @@ def make_v_docs(tier, rng):
     muts = []
     for name, text in sorted(page_texts().items()):
         muts.append(text)
-        muts += mutations(rng, text, 1500 if thorough else 100, base, html)
+        muts += mutations(rng, text, 3000 if thorough else 100, base, html)
     docs["mutation"] = muts
     return docs
 
